@@ -11,6 +11,10 @@ LOOPS = {
              0x109: 0xED, 0x10A: 0xB0, 0x10B: 0x18, 0x10C: 0xF3},
     "io": {0x100: 0xDB, 0x101: 0x10, 0x102: 0x3C, 0x103: 0xD3, 0x104: 0x11, 0x105: 0xED, 0x106: 0xA2, 0x107: 0x18, 0x108: 0xF7},
     "masked_irq": {0x100: 0xF3, 0x101: 0x18, 0x102: 0xFE},
+    # loops made of prefixed instructions only (R advances by 2 per Step) and a loop that keeps reloading R:
+    # cancellation must not depend on the refresh counter, a step count, or any other machine state
+    "jp_ix": {0x100: 0xDD, 0x101: 0xE9},
+    "ld_r_a": {0x100: 0xED, 0x101: 0x4F, 0x102: 0x18, 0x103: 0xFC},
 }
 
 def gen(rng, tier):
@@ -18,13 +22,17 @@ def gen(rng, tier):
     reps = 6 if tier == "quick" else 150
     k = 0
     for name, mem in LOOPS.items():
-        for mode, ms in ((1, 0), (2, 1), (2, 3), (2, 12)):
+        for mode, ms in ((1, 0), (2, 1), (2, 3), (2, 12), (4, 2), (5, 4)):
             for r in range(reps if mode == 2 else max(2, reps // 2)):
                 st = programs.start_state(rng, iff=0, im=1)
+                if name == "jp_ix":
+                    st["IX"] = 0x100
+                if name == "ld_r_a":
+                    st["A"] = rng.choice([0x01, 0x7F, 0x81, rng.below(256)])
                 sched = [(0, 1, [])] if name == "masked_irq" else []
                 cid = "k%d" % k; k += 1
                 lines.append(programs.run_line(cid, st, dict(mem), cancel=mode, ms=ms, nruns=1, inputs=[1, 2, 3], sched=sched, fill=0x00))
-                meta[cid] = (name, "cancel=%s ms=%d" % ("before" if mode == 1 else "during", ms))
+                meta[cid] = (name, "cancel=%s ms=%d" % ({1: "before", 2: "during", 4: "during, context with a cancellation cause", 5: "deadline with a cause"}[mode], ms))
     # terminating programs, never cancelled, many repeated Run calls on one CPU (goroutine accounting)
     for r in range(10 if tier == "quick" else 200):
         mem, halt, multi = programs.gen_program(rng)
